@@ -90,6 +90,11 @@ type checkResult struct {
 
 func selectObligations(c *Ctx, prop string, res []*procResult) (obls, probes []*Obligation, facts map[*Obligation][]*Term, unclaimed int) {
 	facts = map[*Obligation][]*Term{}
+	for _, ob := range c.lemmaObls {
+		if tagged(ob.Tags, prop) {
+			obls = append(obls, ob)
+		}
+	}
 	for _, r := range res {
 		if r.err != nil {
 			continue
@@ -121,6 +126,9 @@ func loadAll(repo string, overlay map[string][]byte) (*Ctx, error) {
 		return nil, fmt.Errorf("load: %v", err)
 	}
 	if err := c.loadContracts(verifDir() + "/lib"); err != nil {
+		return nil, fmt.Errorf("contracts: %v", err)
+	}
+	if err := c.prepareLemmas(); err != nil {
 		return nil, fmt.Errorf("contracts: %v", err)
 	}
 	return c, nil
@@ -202,12 +210,18 @@ func cmdCheck(args []string) {
 	for _, r := range res {
 		if r.err != nil {
 			name := r.fi.Name + ":engine"
-			rp := writeReplay(vd, *prop, name, map[string]interface{}{
-				"property": *prop, "obligation": name, "evidence": "none",
+			content := map[string]interface{}{
+				"property": *prop, "obligation": name,
 				"error": r.err.Error(), "note": "the procedure left the verified subset or its contract no longer binds; obligations could not be generated",
-			})
+			}
+			found := tryDrivers(vd, *repo, name, drivers, dir, content)
+			rp := writeReplay(vd, *prop, name, content)
 			fmt.Printf("engine: %v\n", r.err)
-			fmt.Printf("VIOLATION property=%s replay=%s no-failing-input-found\n", *prop, rp)
+			suffix := " no-failing-input-found"
+			if found {
+				suffix = ""
+			}
+			fmt.Printf("VIOLATION property=%s replay=%s%s\n", *prop, rp, suffix)
 			violations++
 			exit = 1
 		}
@@ -349,10 +363,16 @@ func replayObligation(c *Ctx, vd, repo, prop string, ob *Obligation, drivers []D
 		os.WriteFile(qpath, data, 0o644)
 		content["query"] = qpath
 	}
+	found := tryDrivers(vd, repo, ob.Name, drivers, scratch, content)
+	return writeReplay(vd, prop, ob.Name, content), found
+}
+
+// tryDrivers runs the replay driver registered for the obligation, if any.
+func tryDrivers(vd, repo, obName string, drivers []Driver, scratch string, content map[string]interface{}) bool {
 	found := false
 	for _, d := range drivers {
 		re, err := regexp.Compile(d.Proc)
-		if err != nil || !re.MatchString(ob.Name) {
+		if err != nil || !re.MatchString(obName) {
 			continue
 		}
 		fails, cmdline, dout := runDriver(repo, vd, d, scratch)
@@ -375,9 +395,11 @@ func replayObligation(c *Ctx, vd, repo, prop string, ob *Obligation, drivers []D
 	}
 	if !found {
 		content["evidence"] = "none"
-		content["note"] = "no failing execution was produced; the named obligation is not discharged on this tree (it is on the reference tree)"
+		if _, has := content["note"]; !has {
+			content["note"] = "no failing execution was produced; the named obligation is not discharged on this tree (it is on the reference tree)"
+		}
 	}
-	return writeReplay(vd, prop, ob.Name, content), found
+	return found
 }
 
 // ---------------------------------------------------------------------------
